@@ -41,7 +41,7 @@ corrections: 33 of 40 reported fresh, nothing changed for them afterwards (the C
 of section 5 in the unmodified crate). Round 8: free choice with the request that at least one change per agent is not a
 local slip - two cooperating edits that each look fine alone, a shared helper or macro that only one rare caller is sensitive
 to, a state-dependent sequence of operations, or a difference confined to one build configuration: 27 of 40 reported fresh
-by the own property's check, 35 after the corrections listed at the end of this section (four of them attribution only: the
+by the own property's check, 36 after the corrections listed at the end of this section (four of them attribution only: the
 finding existed under a sibling property). Each agent got only the property text and a
 private worktree; every change compiles, passes the 165 baseline tests and comes with a demonstration that fails with the
 change and passes without. Each was re-confirmed here in a scratch copy (`nbsa/confirm_seed.sh`: demo on the clean tree,
@@ -70,8 +70,7 @@ negative-power-of-two test of `to_signed_bytes_*` reading one digit, `unwrap_or(
 Toom-3 split lengths without their clamps, a case-fold classifier that accepts control characters, the big-base loop guard of
 `to_radix_digits_le` by digit count, a `bits() > MAX.count_ones()` early reject that
 excludes iN::MIN, an early-out of `assign_from_slice` on a zero top word, `leading_zeros() <= 32` for "high half is zero";
-from round 8: `d[0]` on a digit slice that one u128 caller passes empty, Toom-3's lowest coefficient stored instead of
-accumulated (wrong only on the second call of the unbalanced split), `c + c2` instead of `wrapping_add` in `montgomery` (debug-only, needs an all-ones carry digit), `continue` on
+from round 8: `d[0]` on a digit slice that one u128 caller passes empty, `c + c2` instead of `wrapping_add` in `montgomery` (debug-only, needs an all-ones carry digit), `continue` on
 a zero exponent digit in `plain_modpow`, `assign_from_slice` through a
 raw copy that keeps the old upper half of the last digit (reported under C15 as a new unsafe call, not under C09).
 Two more (C13-2, C13-11) are bodies the abstract interpreter cannot decide; they were reported while "undecided"
@@ -103,7 +102,8 @@ carry (R9-carry-exit: C07-12, C07-14), the rounding comparison of `>>` in the am
 (C07-6, C07-11, C10-6, C07-16), control-dependent `&mut` mutation in the std/no_std taint and that rule scoped under C06/C11
 (C06-16), the balance of `<<` on the dividend and `>>` on the remainder around `div_rem_core`, counted across the call
 (R3-div-scaling: C03-17), an emptiness test of a cursor field that a dominating `split_last` of the same unmodified field has
-already answered (R9-exhaustion-test: C09-16), deserialized integers as outside input of the operand-overflow rule, conversions establish no range (C17-16), and
+already answered (R9-exhaustion-test: C09-16), an overwriting slice operation on a window of mac3's accumulator
+(R8-acc-overwritten: C02-17), deserialized integers as outside input of the operand-overflow rule, conversions establish no range (C17-16), and
 attribution: debug-only side effects under the arithmetic properties (C03-16), new checked negations under C16 (C16-17), the
 digit-step rule under C13 (C13-16), R1 under C19 (C19-16).
 """ % (n, "\n".join(rows), own, n, sib, len(missed), ", ".join(missed))
